@@ -1,6 +1,7 @@
 package main
 
 import (
+	"runtime"
 	"encoding/json"
 	"flag"
 	"fmt"
@@ -72,11 +73,16 @@ func buildFlowApp(c flowCase, log *[]string, raised map[string]interface{}) *cli
 			case "panics":
 				// the dynamic type of the value varies with the hook: pointer, error, string
 				var v interface{}
-				switch idx % 3 {
+				switch idx % 4 {
 				case 0:
 					v = &hookErr{name}
 				case 1:
 					v = "P:" + name
+				case 3:
+					// a genuine Go runtime error (its text carries the hook's index)
+					raised[name] = "runtime"
+					var empty []int
+					_ = empty[1000+idx]
 				default:
 					v = &hookPanic{name}
 				}
@@ -155,6 +161,11 @@ func init() {
 				case string:
 					fmt.Println("PANIC " + strings.TrimPrefix(x, "P:"))
 					os.Exit(99)
+				case runtime.Error:
+					if h := hookOfRuntimeError(x); h >= 0 && h < len(hookNames(c.Depth)) {
+						fmt.Println("PANIC " + hookNames(c.Depth)[h])
+						os.Exit(99)
+					}
 				}
 				panic(v)
 			}
@@ -164,10 +175,13 @@ func init() {
 	}
 }
 
-// the hook with index 1 exits with status 0, hook i with 10+i
+// the hook with index 1 exits with status 0, the one with index 2 with -3, hook i with 10+i
 func exitCodeOf(idx int) int {
 	if idx == 1 {
 		return 0
+	}
+	if idx == 2 {
+		return -3
 	}
 	return 10 + idx
 }
@@ -176,7 +190,19 @@ func hookOfCode(code int) int {
 	if code == 0 {
 		return 1
 	}
+	if code == -3 {
+		return 2
+	}
 	return code - 10
+}
+
+// hook index carried by the text of a runtime error raised by a hook ("index out of range [1007] with length 0"), -1 if none
+func hookOfRuntimeError(e error) int {
+	var n int
+	if _, err := fmt.Sscanf(e.Error(), "runtime error: index out of range [%d]", &n); err == nil && n >= 1000 {
+		return n - 1000
+	}
+	return -1
 }
 
 func runFlow(c flowCase) (r flowResult) {
@@ -205,6 +231,13 @@ func runFlow(c flowCase) (r flowResult) {
 			case *hookErr:
 				r.Fin, r.By = "panic", x.by
 				r.Same = raised[x.by] == x
+			case runtime.Error:
+				if h := hookOfRuntimeError(x); h >= 0 && h < len(names) {
+					r.Fin, r.By = "panic", names[h]
+					r.Same = raised[r.By] == "runtime"
+				} else {
+					r.Fin, r.By = "panic", fmt.Sprintf("foreign value %v", x)
+				}
 			case string:
 				r.Fin, r.By = "panic", strings.TrimPrefix(x, "P:")
 				r.Same = raised[r.By] == x
